@@ -827,6 +827,23 @@ def container_method(eng, st, recv, name, pos, kw):
                      patterns=[unwrap(seq.get(st, j), rec["kkind"])])
             ax2 = FA([k], z3.Implies(z3.Select(newdom, k) != z3.Select(rec["dom"], k), inlist), patterns=[z3.Select(newdom, k)])
             return [("ok", commit(st.assume(ax1, ax2), newdom), NONE)]
+        if name in ("__sub__", "difference") and len(pos) == 1 and not kw and isinstance(pos[0], VObj) and pos[0].kind == "set":
+            # a - b for two sets: a NEW set with the pointwise difference (neither operand changes)
+            orec = st.objs[pos[0].oid]
+            if rec.get("lazy"):
+                st2, o = alloc_obj(st, "set", {"lazy": True})
+                return [("ok", st2, VObj(o.oid, "set", "set"))]
+            if orec.get("lazy"):
+                st2, out = alloc_set(st, rec["kkind"], dom=rec["dom"])
+                return [("ok", st2, out)]
+            if orec["dom"].sort() != rec["dom"].sort():
+                raise Unsupported("difference of sets of different element kinds")
+            newdom = fresh("setdiff", rec["dom"].sort())
+            k = z3.Const(fresh_name("dk"), rec["dom"].sort().domain())
+            ax = FA([k], z3.Select(newdom, k) == z3.And(z3.Select(rec["dom"], k), z3.Not(z3.Select(orec["dom"], k))),
+                    patterns=[z3.Select(newdom, k), z3.Select(rec["dom"], k)])
+            st2, out = alloc_set(st.assume(ax), rec["kkind"], dom=newdom)
+            return [("ok", st2, out)]
         if name == "copy":
             st2, out = alloc_set(st, rec["kkind"], dom=rec["dom"])
             return [("ok", st2, out)]
